@@ -383,6 +383,7 @@ func (d *D) runCorruption(sc *core.Scenario, ctx *core.Ctx, allBytes bool) *core
 			ctx.Inc("evaluations", 1)
 			ctx.Inc("corrupt:"+c.Layer+":"+c.Op, 1)
 			ctx.Distinct(prng.HashString(damaged))
+			ctx.Sched(prng.HashString(fmt.Sprint(c.Layer, c.Op, c.Pos, c.Val, len(sealedValue))))
 		}
 		if v != nil {
 			sc.Sealed["corruption"] = fmt.Sprintf("%s %s %d %d", c.Layer, c.Op, c.Pos, c.Val)
